@@ -16,6 +16,7 @@ import (
 //	hang   backend never sends headers         reset  backend resets after headers+some body
 //	short  declared length > sent, then close  garb   backend answers with non-HTTP bytes
 //	slow   body dripped with 1 s pauses        cup    client resets mid-upload
+//	stall  headers and 100 body bytes, then silence (C03 only)
 //	cdown  client resets mid-download (backend still dripping)
 var faultKinds = []string{"refuse", "hang", "reset", "short", "garb", "f5", "slow", "cup", "cdown"}
 
@@ -97,6 +98,9 @@ func doFault(sys *Sys, kind string, extraHdr [][2]string) faultResult {
 		sc = vh.Script{Raw: "NOT-HTTP garbage\r\n\r\n\x00\x01\x02"}
 	case "slow":
 		sc = vh.Script{Status: 200, Framing: "chunked", Steps: []vh.Step{{Op: "write", N: 100}, {Op: "flush"}, {Op: "sleep", Ms: 1000}, {Op: "write", N: 100}, {Op: "flush"}, {Op: "sleep", Ms: 1000}, {Op: "write", N: 100}, {Op: "flush"}, {Op: "sleep", Ms: 1000}, {Op: "write", N: 100}}}
+	case "stall":
+		// headers and a first piece of the body, then silence for as long as the connection lasts
+		sc = vh.Script{Status: 200, Framing: "chunked", Steps: []vh.Step{{Op: "write", N: 100}, {Op: "flush"}, {Op: "hang"}}}
 	case "holdtrial":
 		sc = vh.Script{Status: 200, Steps: []vh.Step{{Op: "hold", Key: "trial"}, {Op: "write", N: 10}}}
 	case "cup":
